@@ -43,6 +43,8 @@ func (r ReplyInfo) String() string {
 
 // Call is one ExchangeContext invocation.
 type Call struct {
+	KilledAt   time.Duration // C02: 1 + instant at which the client closed the healthy connection carrying this query
+	KilledConn int
 	Idx      int
 	Caller   int
 	Seq      int
@@ -91,6 +93,7 @@ type W1 struct {
 	Outstanding map[int]map[uint16]int
 	CheckDupWid bool
 	CheckFrames bool
+	MaxQueryFrame int // with CheckFrames: longest frame a query may announce (default 1024)
 	// DoQDialFault is applied to the (fake) QUIC connection dial.
 	DoQDialFault func(ctx context.Context, nth int) error
 	MaxOutstanding map[int]int // per conn: maximum number of unanswered queries seen
@@ -224,6 +227,9 @@ func (w *W1) Serve(opts ServerOpts) func(sc *simnet.Conn) {
 		nth := 0
 		if w.CheckFrames {
 			sc.MaxFrame = 1024 // no query of these workloads is anywhere near that long
+			if w.MaxQueryFrame > 0 {
+				sc.MaxFrame = w.MaxQueryFrame
+			}
 		}
 		for {
 			q, err := sc.ReadMsg()
